@@ -202,7 +202,7 @@ pub trait Sub: Sync {
     }
 }
 
-pub type Body<V> = Box<dyn Fn(&V, &mut Obs) -> Result<(), String> + Sync + Send>;
+pub type CheckBody<V> = Box<dyn Fn(&V, &mut Obs) -> Result<(), String> + Sync + Send>;
 
 /// A proptest-driven sub-check.
 pub struct Check<V> {
@@ -210,9 +210,11 @@ pub struct Check<V> {
     pub quick: u64,
     pub thorough: u64,
     pub strat: Box<dyn Fn() -> BoxedStrategy<V> + Sync + Send>,
-    pub body: Body<V>,
+    pub body: CheckBody<V>,
     /// write every case to a side file before running it, so that a worker death can be attributed
     pub guard_death: bool,
+    /// bound on proptest shrink iterations (each one re-runs the body; program cases recompile)
+    pub max_shrink: u32,
 }
 
 fn seed_bytes(seed: u64, prop: &str, sub: &str, thread: usize) -> [u8; 32] {
@@ -239,7 +241,7 @@ where
         let cfg = Config {
             cases: cases as u32,
             failure_persistence: None,
-            max_shrink_iters: 4096,
+            max_shrink_iters: self.max_shrink,
             max_global_rejects: 65536,
             ..Config::default()
         };
@@ -428,8 +430,12 @@ impl Evidence {
             }),
         );
         if let Some(f) = r.failure {
-            if f.reason.contains("harness bug") || f.reason.contains("proptest aborted") {
+            if f.reason.starts_with("harness") || f.reason.contains("proptest aborted") || f.reason.starts_with("anchor build failed") || f.reason.starts_with("rustc failed without") {
                 eprintln!("  sub {} INFRASTRUCTURE: {}", f.sub, f.reason);
+                // keep the case for debugging, outside the replay tier
+                let dir = verif_root().join("harness/target/infra");
+                let _ = std::fs::create_dir_all(&dir);
+                let _ = std::fs::write(dir.join(format!("{}-{}.json", ctx.prop, f.sub)), json!({"property": ctx.prop, "sub": f.sub, "reason": f.reason, "case": f.case}).to_string());
                 self.infra.push(f.reason);
             } else {
                 let path = write_replay(ctx.prop, &f);
